@@ -1,7 +1,8 @@
 import Dasp.Driver.Loop
+import Dasp.Driver.Alloc
 open Dasp.Driver
 
--- stub: replaced when property C07 is wired in
 def main : IO Unit := runDriver fun
+  | "alloc" :: rest => allocLine rest
   | [] => ""
   | _ => "bad-op"
